@@ -385,6 +385,9 @@ class Gen:
                 row["save_name"] = "res " + self.simple()
         elif t == "start_new_flow":
             row["arg"] = "flow " + self.simple()
+            names = [k for k in self.groups if not k.startswith("flow:")]
+            if names and r.random() < 0.25:
+                row["arg"] = r.choice(sorted(names))      # a flow named like a group of the same workbook: two objects
             # one uuid per flow NAME (two explicit uuids for one name are a conflict the tool rightly
             # rejects: C06's subject, outside the reference meaning of rows)
             fkey = "flow:" + row["arg"]
